@@ -156,7 +156,8 @@ func c02upstream(moved bool) {
 		events = []string{"none", "remove-host", "replace-hosts", "upstream-stop"}
 	}
 	ev := events[sched.Choose(sched.ClsInput, len(events), "event")]
-	multi := sched.Choose(sched.ClsInput, 2, "multi-key") == 1
+	multiKind := sched.Choose(sched.ClsInput, 3, "multi-key")
+	multi := multiKind >= 1
 	cl := cluster.New(2, 0, 2)
 	s := vfStartStack(cl, vfSvcConfig(0, nil, 0))
 	k0, k1 := cl.KeyInGroup("k", 0, 0), cl.KeyInGroup("k", 1, 0)
@@ -171,7 +172,9 @@ func c02upstream(moved bool) {
 	}
 	r1 := mk("get", k0)
 	var r2 *rawRequest
-	if multi {
+	if multiKind == 2 {
+		r2 = mk("mset", k1, "v", k0, "w") // the last pair goes to the node the event hits
+	} else if multi {
 		r2 = mk("mget", k0, k1)
 	} else {
 		r2 = mk("set", k1, "v")
@@ -192,7 +195,7 @@ func c02upstream(moved bool) {
 		sched.GoNamed("event", func() { n0.Stop() })
 	}
 	sched.WaitQuiescent()
-	out := ev + fmt.Sprintf(" multi=%v moved=%v:", multi, moved)
+	out := ev + fmt.Sprintf(" multi=%d moved=%v:", multiKind, moved)
 	for _, b := range sched.LiveNonServer() {
 		if strings.HasPrefix(b.Name, "request") || b.Name == "event" {
 			sched.Fail(fmt.Sprintf("caller-blocked-forever / %s / %s", b.Name[:5], ev), fmt.Sprintf("%s is parked in %s", b.Name, b.Kind))
